@@ -469,4 +469,98 @@ theorem clampI32_mono {a b : Int} (h : a ≤ b) : clampI32 a ≤ clampI32 b := b
   unfold clampI32 I32_MIN I32_MAX
   split <;> split <;> (try split) <;> (try split) <;> omega
 
+/-! ### `min_by` / `max_by` -/
+
+theorem minBy_fold (xs : List Rat) : ∀ cur : Rat,
+    let r := xs.foldl (fun cur y => if Scalar.ltb y cur then y else cur) cur
+    r ≤ cur ∧ (∀ y ∈ xs, r ≤ y) ∧ (r = cur ∨ r ∈ xs) := by
+  induction xs with
+  | nil => intro cur; simp
+  | cons x xs ih =>
+    intro cur
+    simp only [List.foldl_cons]
+    by_cases h : x < cur
+    · rw [if_pos (show Scalar.ltb x cur = true by simp [h])]
+      obtain ⟨h1, h2, h3⟩ := ih x
+      refine ⟨by linarith, ?_, ?_⟩
+      · intro y hy
+        rcases List.mem_cons.mp hy with rfl | hy
+        · exact h1
+        · exact h2 y hy
+      · rcases h3 with h3 | h3
+        · right; rw [h3]; exact List.mem_cons_self
+        · right; exact List.mem_cons_of_mem _ h3
+    · rw [if_neg (show ¬ Scalar.ltb x cur = true by simp [h])]
+      obtain ⟨h1, h2, h3⟩ := ih cur
+      refine ⟨h1, ?_, ?_⟩
+      · intro y hy
+        rcases List.mem_cons.mp hy with rfl | hy
+        · linarith [not_lt.mp h]
+        · exact h2 y hy
+      · rcases h3 with h3 | h3
+        · left; exact h3
+        · right; exact List.mem_cons_of_mem _ h3
+
+theorem maxBy_fold (xs : List Rat) : ∀ cur : Rat,
+    let r := xs.foldl (fun cur y => if Scalar.ltb y cur then cur else y) cur
+    cur ≤ r ∧ (∀ y ∈ xs, y ≤ r) ∧ (r = cur ∨ r ∈ xs) := by
+  induction xs with
+  | nil => intro cur; simp
+  | cons x xs ih =>
+    intro cur
+    simp only [List.foldl_cons]
+    by_cases h : x < cur
+    · rw [if_pos (show Scalar.ltb x cur = true by simp [h])]
+      obtain ⟨h1, h2, h3⟩ := ih cur
+      refine ⟨h1, ?_, ?_⟩
+      · intro y hy
+        rcases List.mem_cons.mp hy with rfl | hy
+        · linarith
+        · exact h2 y hy
+      · rcases h3 with h3 | h3
+        · left; exact h3
+        · right; exact List.mem_cons_of_mem _ h3
+    · rw [if_neg (show ¬ Scalar.ltb x cur = true by simp [h])]
+      obtain ⟨h1, h2, h3⟩ := ih x
+      refine ⟨by linarith [not_lt.mp h], ?_, ?_⟩
+      · intro y hy
+        rcases List.mem_cons.mp hy with rfl | hy
+        · exact h1
+        · exact h2 y hy
+      · rcases h3 with h3 | h3
+        · right; rw [h3]; exact List.mem_cons_self
+        · right; exact List.mem_cons_of_mem _ h3
+
+theorem minBy_spec {l : List Rat} {s : Rat} (h : minBy l = some s) : s ∈ l ∧ ∀ y ∈ l, s ≤ y := by
+  cases l with
+  | nil => simp [minBy] at h
+  | cons x xs =>
+    simp only [minBy, Option.some.injEq] at h
+    obtain ⟨h1, h2, h3⟩ := minBy_fold xs x
+    rw [h] at h1 h2 h3
+    refine ⟨?_, ?_⟩
+    · rcases h3 with h3 | h3
+      · rw [h3]; exact List.mem_cons_self
+      · exact List.mem_cons_of_mem _ h3
+    · intro y hy
+      rcases List.mem_cons.mp hy with rfl | hy
+      · exact h1
+      · exact h2 y hy
+
+theorem maxBy_spec {l : List Rat} {s : Rat} (h : maxBy l = some s) : s ∈ l ∧ ∀ y ∈ l, y ≤ s := by
+  cases l with
+  | nil => simp [maxBy] at h
+  | cons x xs =>
+    simp only [maxBy, Option.some.injEq] at h
+    obtain ⟨h1, h2, h3⟩ := maxBy_fold xs x
+    rw [h] at h1 h2 h3
+    refine ⟨?_, ?_⟩
+    · rcases h3 with h3 | h3
+      · rw [h3]; exact List.mem_cons_self
+      · exact List.mem_cons_of_mem _ h3
+    · intro y hy
+      rcases List.mem_cons.mp hy with rfl | hy
+      · exact h1
+      · exact h2 y hy
+
 end LMV.Dist
